@@ -46,6 +46,10 @@ chk("C11", "exploration",
     "exhaustive enumeration of hosts x no-proxy lists x schemes x proxy configurations through the public API and send(), and of all assignments of the eight proxy environment variables in single-threaded worker processes", "E2",
     "All 1..3-label host names over a 4-label alphabet (so that equal / subdomain / near-miss suffix relations all occur) plus IP literals against all no-proxy lists up to length 2, through ProxySettings::for_url and end-to-end through send() (address dialled); every assignment of the 8 environment variables over 7 value kinds x no_proxy menus through ProxySettings::from_env in subprocesses.",
     "Trusted: the curl-convention reference in harness/src/c11.rs and refs::ref_no_proxy; allowed-outcome sets where the property text leaves precedence open (listed in the evidence assumptions).")
+chk("C12", "fault_enumeration",
+    "exhaustive enumeration of CONNECT reply statuses and of every cut / I/O error / corruption / segmentation of the reply head against a scripted proxy, decided on the transport's ordered write/read log; TLS lab for the inside of the tunnel", "E2+E5",
+    "Every reply status 100..599 x origin/port/credential/request variants; for seven statuses every EOF offset, I/O error at every offset, byte substitutions/deletions at every offset, every <=2-cut segmentation; refusal bodies up to endless. Oracle: nothing but the CONNECT head is written before a complete 2xx head was served, secrets never in clear, ConnectError carries status and <= 10 KiB. In the TLS lab the proxy terminates the inner TLS: origin-name verification, no proxy credentials inside, caller headers inside.",
+    "Trusted: httparse reading of CONNECT/reply heads, the harness ClientHello SNI parser, native-tls acceptors.")
 chk("C14", "exploration",
     "exhaustive enumeration of the full certificate x name x flags x root x route x scope x host x backend matrix as real TLS handshakes against local listeners", "E5",
     "Every cell of the matrix the property names is one real exchange against the local TLS lab (native-tls acceptors, committed test PKI, resolver hook for names), for both TLS backends (two builds); the only-if direction is enforced on every cell, the converse as non-vacuity half.",
@@ -58,6 +62,10 @@ chk("C16", "model_checking",
     "explicit-state BFS over API operation histories on real Session/RequestBuilder objects with a reference model; state key = reference values + Arc sharing partition", "E3",
     "All histories up to the depth bound over {new session, clone, each setter with two values, header/header_append with colliding names, create request, request setters, drop}; in every state each live object's settings snapshot (hook H4) equals the value-semantics reference, the sharing partition is consistent, and every live request is prepared and sent through a scripted world that makes each setting wire-visible.",
     "Trusted: std Arc::make_mut; no unsafe outside cfg(windows) (scanned and reported); thread interleavings at operation granularity are the explored sequential histories, finer ones would be exploring std's Arc (loom has no make_mut, shuttle's Arc is std's) - a free-running thread run is kept as smoke test only.")
+chk("C18", "exploration",
+    "exhaustive enumeration of charset labels x Content-Type forms x defaults x entry points, and of all byte strings up to a length bound x charsets x every segmentation x reader buffer sizes, against encoding_rs whole-buffer decoding", "E2",
+    "Part A: every WHATWG label (228, in several spellings) x Content-Type forms x default-charset settings x entry points. Part B: all byte strings of length <= 4/5 over a 13-byte alphabet of lead/trail/escape bytes x 12 charsets x EVERY segmentation x caller buffer {1,2,3,8192,read_to_string}, plus an 8 KiB-boundary regime; output must equal the one-shot reference decode and never be an error.",
+    "Trusted: encoding_rs decode_without_bom_handling as the reference decoder; BOM-prefixed bodies only take part in the segmentation-independence comparison.")
 chk("C19", "model_checking",
     "bounded exhaustive explicit-state exploration with a pausing scripted peer", "E1",
     "The same explorer with a peer that pauses for ever after every possible prefix: the transport reports the moment the client would block; oracle: send() returns once the head is complete and no read asks for more while deliverable data has not been handed out.",
@@ -93,8 +101,8 @@ m = {
     },
     "engines": [
         {"name": "E1", "path": "/verif/harness/src/e1.rs", "serves_properties": ["C01", "C02", "C19"], "kind_free_text": "explicit-state search over (scripted transport x real Response), states re-reached by replay, keyed by Debug of the reader stack"},
-        {"name": "E2", "path": "/verif/harness/src/", "serves_properties": ["C03", "C04", "C05", "C06", "C07", "C11", "C15"], "kind_free_text": "bounded exhaustive input/configuration enumerators over the real code through the scripted transport (C05 in worker subprocesses)"},
-        {"name": "E5", "path": "/verif/harness/src/tlslab.rs", "serves_properties": ["C14"], "kind_free_text": "local TLS lab: real loopback listeners (TLS origin, http/https proxy terminating the inner TLS), committed test PKI, second build against rustls"},
+        {"name": "E2", "path": "/verif/harness/src/", "serves_properties": ["C03", "C04", "C05", "C06", "C07", "C11", "C12", "C15", "C18"], "kind_free_text": "bounded exhaustive input/configuration enumerators over the real code through the scripted transport (C05 in worker subprocesses)"},
+        {"name": "E5", "path": "/verif/harness/src/tlslab.rs", "serves_properties": ["C12", "C14"], "kind_free_text": "local TLS lab: real loopback listeners (TLS origin, http/https proxy terminating the inner TLS), committed test PKI, second build against rustls"},
         {"name": "E3", "path": "/verif/harness/src/redir.rs", "serves_properties": ["C09", "C10", "C16"], "kind_free_text": "BFS over scripted redirect worlds with a reference model"},
     ],
     "checks": checks,
